@@ -159,6 +159,29 @@ async fn run_case(case: Vec<String>) -> String {
                 let r = dialog.create_request(Method::from(p[1]));
                 outs.push(show_request(&r, &local_tag));
             }
+            "P" => {
+                // the PRACK for a (later) reliable provisional response of this dialog whose Contact is another one than the dialog's remote
+                // target (an announcement server): a 1xx is no target refresh, the PRACK goes to the remote target like every request
+                let text = format!(
+                    "SIP/2.0 183 Session Progress\r\nVia: SIP/2.0/UDP 10.0.0.1:5060;branch=z9hG4bKx\r\nFrom: <{lu}>;tag=lt\r\nTo: <{pu}>;tag={pt}\r\nCall-ID: {cid}\r\nCSeq: {cs} INVITE\r\nRequire: 100rel\r\nRSeq: {rs}\r\nContact: \"Announcements\" <sip:media{k}@192.0.2.77:5080>\r\nContent-Length: 0\r\n\r\n",
+                    lu = local_uri, pu = peer_uri, pt = peer_tag, cid = callid, cs = invite_cseq, rs = 7, k = p[1]
+                );
+                let msg = parse_received(&endpoint, text.as_bytes(), source, &tp).unwrap();
+                let line = match msg.line {
+                    MessageLine::Response(l) => l,
+                    _ => unreachable!(),
+                };
+                let base_headers = BaseHeaders {
+                    via: msg.headers.get_named().unwrap(),
+                    from: msg.headers.get(Name::FROM).unwrap(),
+                    to: msg.headers.get(Name::TO).unwrap(),
+                    call_id: msg.headers.get_named().unwrap(),
+                    cseq: msg.headers.get_named().unwrap(),
+                };
+                let mut resp = TsxResponse { tp_info: MessageTpInfo { ..msg.tp_info }, line, base_headers, headers: msg.headers, body: msg.body };
+                let r = sip_ua::invite::prack::create_prack(&dialog, &mut resp, 7);
+                outs.push(show_request(&r, &local_tag));
+            }
             "J" => {
                 // concurrent creation from several tasks
                 let n: usize = p[1].parse().unwrap();
